@@ -18,6 +18,7 @@ SPEC = {
                 quick=[("G(0..5) x U", [["--n", n, "--alpha", "U"] for n in range(0, 6)]),
                        ("G(0..5) x A2", [["--n", n, "--alpha", "A2"] for n in range(0, 6)]),
                        ("G(4) x A3", [["--n", 4, "--alpha", "A3"]]), ("G(5) x A3", [["--n", 5, "--alpha", "A3"]]),
+                       ("G(4) x A3 plus one more component = a single edge weighing 2^60", [["--n", 4, "--alpha", "A3", "--plus-heavy-k2"]]),
                        ("reversed / alternating edge orientation: G(4) x A3, G(5) x A2", [["--n", 4, "--alpha", "A3", "--orient", 1], ["--n", 5, "--alpha", "A2", "--orient", 1], ["--n", 5, "--alpha", "A2", "--orient", 2]]),
                        ("blob grammar K=3,T=2 x patterns M2, M3", [["--grammar", "blobs:3:2", "--alpha", "M2"], ["--grammar", "blobs:3:2", "--alpha", "M3"]]),
                        ("tie-heavy families x U", [["--families", FAMS_TIES, "--alpha", "U"]]),
@@ -42,6 +43,7 @@ SPEC = {
                      "weight with GF(2) independence over each collection must reach the dimension and the reference optimum. evaluations = builder calls; "
                      "distinct_nontrivial = distinct (graph, weighting) with cycle space dimension >= 1",
                 quick=[("G(0..4) x A3", [["--n", n, "--alpha", "A3"] for n in range(0, 5)]), ("G(5) x A2", [["--n", 5, "--alpha", "A2"]]),
+                       ("G(4) x A3 plus one more component = a single edge weighing 2^60", [["--n", 4, "--alpha", "A3", "--plus-heavy-k2"]]),
                        ("G(5) x U", [["--n", 5, "--alpha", "U"]]), ("G(5) x A3", [["--n", 5, "--alpha", "A3"]]),
                        ("reversed / alternating edge orientation: G(4) x A3, G(5) x A2", [["--n", 4, "--alpha", "A3", "--orient", 1], ["--n", 5, "--alpha", "A2", "--orient", 1], ["--n", 5, "--alpha", "A2", "--orient", 2]]),
                        ("blob grammar K=3,T=2 x patterns M2, M3", [["--grammar", "blobs:3:2", "--alpha", "M2"], ["--grammar", "blobs:3:2", "--alpha", "M3"]]),
